@@ -70,12 +70,26 @@ def oracle_yule(p):
     return out
 
 
+def impl_lpc(p):
+    a, e = _sp().lpc(np.array(p["x"], dtype=float), p["order"])
+    return [c(a), c([e])]
+
+
+def model_lpc(p):
+    from spectrum.tools import nextpow2
+    x = np.asarray(p["x"], dtype=float)
+    nfft = int(2 ** nextpow2(2.0 * len(x) - 1))
+    return ("F", proto.request("lpc", "F", [p["order"], nfft], [x]))
+
+
 def _key(p):
     x = np.asarray(p["x"])
     return "%d|%d|%s|%d" % (len(x), p["order"], np.iscomplexobj(x), hash(x.tobytes()) & 0xFFFFFF)
 
 
 KINDS = {
+    "lpc": {"impl": impl_lpc, "model": model_lpc, "rtol": 1e-7, "atol": 1e-12, "key": lambda p: "lpc|" + _key(p),
+            "nontrivial": lambda p: p["order"] >= 2, "tags": lambda p: ["lpc", "data:" + p["dkind"]]},
     "yule": {"impl": impl_yule, "model": model_yule, "oracle": oracle_yule, "rtol": 1e-7, "atol": 1e-300, "key": _key,
              "nontrivial": lambda p: p["order"] >= 2,
              "tags": lambda p: ["complex" if np.iscomplexobj(p["x"]) else "real", "data:" + p["dkind"],
@@ -115,3 +129,5 @@ def gen(rng, nrng, tier):
         if not _ok(x, order):
             continue
         yield ("yule", {"x": x, "order": order, "exact": exact, "dkind": dk})
+        if not np.iscomplexobj(x) and order <= N - 1 and N >= 3:
+            yield ("lpc", {"x": x, "order": order, "dkind": dk})
